@@ -126,6 +126,14 @@ def configs(tier, seed):
                                 ''.join('T' if s else 'F' for s in shift), impl, 'halfcomplex' if hc else 'full', sign)
                             out.append((cid, dict(kind='ft', shape=shape, box=box, axes=axes, shift=shift, impl=impl,
                                                   hc=hc, sign=sign, dtype=dt)))
+    # axes of EQUAL length with different per-axis shift flags
+    for shape, box in (((4, 4), [(0.0, 2.0), (-1.0, 3.0)]),):
+        for shift in ((True, False), (False, True)):
+            for impl in ('numpy', 'pyfftw'):
+                cid = 'ft/%s/axes=0,1/shift=%s/%s/full/sign-' % ('x'.join(map(str, shape)),
+                                                                 ''.join('T' if s_ else 'F' for s_ in shift), impl)
+                out.append((cid, dict(kind='ft', shape=shape, box=box, axes=(0, 1), shift=shift, impl=impl, hc=False,
+                                      sign='-', dtype='complex128')))
     out.append(('ft/real-to-complex/4x3/axes=1', dict(kind='ft', shape=(4, 3), box=[(-2.0, 2.0), (0.5, 1.25)],
                                                       axes=(1,), shift=(False,), impl='pyfftw', hc=False, sign='-',
                                                       dtype='float64')))
@@ -225,6 +233,17 @@ def case(ctx, kind, shape, axes, impl, hc, sign, dtype, box=None, shift=None, py
         # second call re-uses the FFTW plan
         y2 = op(x)
         ctx.eq('second-call(plan-reuse)', y2, ref)
+        if impl == 'pyfftw':
+            # a plan made in advance (documented use: init_fftw_plan, then call) computes the same transform
+            opp = T.DiscreteFourierTransform(dom, axes=axes, halfcomplex=hc, sign=sign, impl=impl)
+            opp.init_fftw_plan()
+            ctx.eq('pre-planned/dft', opp(x), ref)
+            ctx.eq('pre-planned/dft/second-call', opp(x), ref)
+            ctx.eq('pre-planned/input-unchanged', x, x0)
+            if not (dtype == 'float64' and not hc):
+                invp = opp.inverse
+                invp.init_fftw_plan()
+                ctx.eq('pre-planned/inverse(dft(x))=x', invp(y2), x0)
         inv = op.inverse
         ctx.fact('inverse-keeps-back-end', inv.impl == impl)
         isign = '+' if sign == '-' else '-'
